@@ -221,7 +221,7 @@ REG["C08"] = {
 }
 
 REG["C10"] = {
-    "units": ["markdown", "mdupdate", "genoutcome"],
+    "units": ["markdown", "fence", "mdupdate", "genoutcome"],
     "thorough_extra": ["replay"],
     "quick_extra": ["replay"],
     "scope": "PARTIAL — MarkdownUpdateGenerator::generate_update(document, outcomes) over the tokenizer contract (unit markdown, co-owned): the result is upd_fold over a tokenization that covers the "
@@ -232,12 +232,13 @@ REG["C10"] = {
              "per test case (= per block with a command: lemma_md_doc of C06). has_command(code_lines) == 'some line starts with `$ `'. No outcomes: the document is returned as it is.",
     "assumptions": [
         "in unit mdupdate Outcome is opaque (gen_text); what OutcomeTestGenerator::generate_testcase writes is decided in unit genoutcome (co-owned with C09): for a passing test "
-        "gen_spec is the command lines + the expectation lines exactly as written (Expectation::original_string) + the exit-code line; max_backtick_size is uninterpreted (max_ticks); str::trim_start uninterpreted",
+        "gen_spec is the command lines + the expectation lines exactly as written (Expectation::original_string) + the exit-code line; max_backtick_size is under contract (unit fence: the longest run of backticks at the start of a line of the block, at least 2; lemma_fence_safe / lemma_block_fence_safe: the fence written, one backtick longer, is not the start of any line of the body); str::trim_start uninterpreted",
         "lines are those of str::lines (uninterpreted; CR LF and a missing final line feed are therefore normalised: 'byte for byte' is decided at the level of lines, each written with one LF); "
         "axiom_lines_no_lf: no line contains a line feed",
         "String::push_str, StringNewline::assure_newline (read from src/newline.rs), \"`\".repeat(n), format!/formatln! helpers with ensures derived from the literal (R8')",
         "precondition C10.pre.outcomes (one outcome per test case) is the caller's obligation (commands/update.rs zips test cases with outputs; read, not verified)",
         "solver budget of generate_update raised to rlimit 40 (default 10)",
+        "unit fence: a string has at most isize::MAX bytes and at least one byte per char (axiom_str_isize, axiom_chars_le_bytes); usize::max; termination of the two loops over lines()/chars() unproved",
     ],
     "not_decided": ["idempotence and 'the updated document parses to the same commands' (need the tokenizer run on the OUTPUT text): BOUNDED stand-in only — verif-replay c10 N enumerates all documents "
                     "of up to N constructs from 14 shapes plus up to min(N,4) lines from 13 shapes (quick N=3: 5 333 documents; thorough N=4; 610 134 documents for N=5 were run once), "
